@@ -187,9 +187,9 @@ theorem planeDistance_eq (B : M3 ℝ) (hdet : M3.det B ≠ 0) (hkl : V3 ℝ) (hn
   simp only [rs_two, rs_pi, ← hb, ← hbMT, hq]
   have hsq : PyOps.pySqrt ((V3.norm (M3.mulVec B hkl) / (2 * Real.pi)) ^ 2) = .ok (V3.norm (M3.mulVec B hkl) / (2 * Real.pi)) := by
     unfold PyOps.pySqrt
-    have : Scalar.le (Scalar.zero : ℝ) ((V3.norm (M3.mulVec B hkl) / (2 * Real.pi)) ^ 2) = true := by
-      simp only [rs_le, rs_zero, decide_eq_true_eq]; positivity
-    simp only [this, if_true, rs_sqrt, Real.sqrt_sq hpos.le]
+    have : Scalar.lt ((V3.norm (M3.mulVec B hkl) / (2 * Real.pi)) ^ 2) (Scalar.zero : ℝ) = false := by
+      simp only [rs_lt, rs_zero, decide_eq_false_iff_not, not_lt]; positivity
+    simp only [this, Bool.false_eq_true, if_false, rs_sqrt, Real.sqrt_sq hpos.le]
   have hdiv : PyOps.pyDiv (Scalar.one : ℝ) (V3.norm (M3.mulVec B hkl) / (2 * Real.pi)) = .ok (2 * Real.pi / V3.norm (M3.mulVec B hkl)) := by
     unfold PyOps.pyDiv
     have : Scalar.beq (V3.norm (M3.mulVec B hkl) / (2 * Real.pi)) (Scalar.zero : ℝ) = false := by
